@@ -11,101 +11,147 @@
 (* A file is <<iter, value>>; value ids are positive integers, 0 = "no marker".      *)
 (* Actions mirror the filesystem effects of Marker.Move / RemoveObsolete /           *)
 (* LocateMarker one by one, in the code's order.                                     *)
+(*                                                                                  *)
+(* Faults (injected I/O errors, not crashes): every filesystem step of Move may     *)
+(* return an error - Create (with the file not created, or created with the         *)
+(* acknowledgement lost: "on a distributed filesystem an error doesn't guarantee    *)
+(* that the file wasn't created"), the marker file's Sync, its Close, the Remove of *)
+(* the old marker, the directory Sync (Move panics: the process can only die).      *)
+(* A failed Move returns an error: "the current value of the marker may be the old  *)
+(* value or the new value.  Callers may retry a Move error" - with the same value   *)
+(* or with a different one.  The marker may also be re-located on the live          *)
+(* directory (LocateMarker without a crash).                                        *)
 EXTENDS Integers, FiniteSets, Sequences, TLC
 
 CONSTANTS MaxMoves,            \* bound: number of Move calls in a behaviour
           MaxCrashes,          \* bound: crash + relocate steps the behaviour continues from
           MaxRemoveFails,      \* bound: injected Remove errors (old marker left behind => obsolete file)
+          MaxFaults,           \* bound: injected Create / file Sync / Close / directory Sync errors
           BugNoDirSync,        \* seeded bug: Move returns without syncing the directory
           BugSyncBeforeCreate, \* seeded bug: the directory is synced before the new file is created
-          BugLowestIterWins    \* seeded bug: scanForMarker lets the lowest iteration win
+          BugLowestIterWins,   \* seeded bug: scanForMarker lets the lowest iteration win
+          BugIterLate          \* seeded bug: Move commits iter/filename only after the new file was synced and closed
 
 VARIABLES children, synced,         \* CrashFS
           iter, cur, obsolete,      \* Marker.iter, Marker.filename, Marker.obsoleteFiles
           pc, newf, oldf,           \* in-flight call
           committed, inflight,      \* value of the last returned Move / value of the Move in progress (0 = none)
-          moves, crashes, fails     \* bounds
-mvars == <<children, synced, iter, cur, obsolete, pc, newf, oldf, committed, inflight, moves, crashes, fails>>
+          maybe,                    \* values of the Moves that returned an error since the last successful Move / restart
+          lastfail,                 \* value of the last Move if it returned an error (a retry may reuse it), else 0
+          moves, crashes, fails, faults   \* bounds
+mvars == <<children, synced, iter, cur, obsolete, pc, newf, oldf, committed, inflight, maybe, lastfail, moves, crashes, fails, faults>>
 
 None == <<0, 0>>
 
 (* ---- scanForMarker: highest iteration wins, every other file is obsolete ---- *)
-Winner(files) == IF files = {} THEN None
-                 ELSE IF BugLowestIterWins THEN CHOOSE f \in files : \A g \in files : f[1] <= g[1]
-                 ELSE CHOOSE f \in files : \A g \in files : f[1] >= g[1]
+Better(f, g) == IF BugLowestIterWins THEN f[1] <= g[1] ELSE f[1] >= g[1]
+Winners(files) == {f \in files : \A g \in files : Better(f, g)}
+Winner(files) == IF files = {} THEN None ELSE CHOOSE f \in Winners(files) : TRUE
 Val(f) == f[2]
 LocVal(files) == Val(Winner(files))
+(* every value a scan of `files` may return, whatever the order of the directory listing *)
+LocVals(files) == IF files = {} THEN {0} ELSE {Val(f) : f \in Winners(files)}
 
 (* every state a crash at this moment can leave behind *)
 CrashStates == {synced \cup S : S \in SUBSET (children \ synced)}
 
 MInit == /\ children = {} /\ synced = {} /\ iter = 0 /\ cur = None /\ obsolete = {}
          /\ pc = "idle" /\ newf = None /\ oldf = None /\ committed = 0 /\ inflight = 0
-         /\ moves = 0 /\ crashes = 0 /\ fails = 0
+         /\ maybe = {} /\ lastfail = 0
+         /\ moves = 0 /\ crashes = 0 /\ fails = 0 /\ faults = 0
 
-(* LocateMarker on a directory listing (a fresh process after a crash, or the initial open) *)
+(* LocateMarker on a directory listing (a fresh process after a crash, the initial open, or a re-locate) *)
 LocateOn(files) == /\ cur' = Winner(files) /\ iter' = Winner(files)[1] /\ obsolete' = files \ {Winner(files)}
                    /\ pc' = "idle" /\ newf' = None /\ oldf' = None
 
-(* ---- Move(v): a.iter++; Create(dst); f.Sync; f.Close; Remove(old); dirFD.Sync ---- *)
+(* ---- Move(v): a.iter++; Create(dst); a.filename = dst; f.Sync; f.Close; Remove(old); dirFD.Sync ---- *)
 CallMove(v) == /\ pc = "idle" /\ v > 0
-               /\ iter' = iter + 1 /\ newf' = <<iter + 1, v>> /\ oldf' = cur /\ inflight' = v
+               /\ iter' = (IF BugIterLate THEN iter ELSE iter + 1)
+               /\ newf' = <<iter + 1, v>> /\ oldf' = cur /\ inflight' = v
                /\ pc' = (IF BugSyncBeforeCreate THEN "presync" ELSE "create")
                /\ moves' = moves + 1
-               /\ UNCHANGED <<children, synced, cur, obsolete, committed, crashes, fails>>
+               /\ UNCHANGED <<children, synced, cur, obsolete, committed, maybe, lastfail, crashes, fails, faults>>
 PreSync == /\ pc = "presync" /\ synced' = children /\ pc' = "create"
-           /\ UNCHANGED <<children, iter, cur, obsolete, newf, oldf, committed, inflight, moves, crashes, fails>>
-Create == /\ pc = "create" /\ children' = children \cup {newf} /\ cur' = newf /\ pc' = "syncfile"
-          /\ UNCHANGED <<synced, iter, obsolete, newf, oldf, committed, inflight, moves, crashes, fails>>
-SyncFile == /\ pc = "syncfile" /\ pc' = "close"      \* empty file: no data to make durable
-            /\ UNCHANGED <<children, synced, iter, cur, obsolete, newf, oldf, committed, inflight, moves, crashes, fails>>
-CloseFile == /\ pc = "close" /\ pc' = (IF oldf # None THEN "remove" ELSE "syncdir")
-             /\ UNCHANGED <<children, synced, iter, cur, obsolete, newf, oldf, committed, inflight, moves, crashes, fails>>
+           /\ UNCHANGED <<children, iter, cur, obsolete, newf, oldf, committed, inflight, maybe, lastfail, moves, crashes, fails, faults>>
+Create == /\ pc = "create" /\ children' = children \cup {newf}
+          /\ cur' = (IF BugIterLate THEN cur ELSE newf) /\ pc' = "syncfile"
+          /\ UNCHANGED <<synced, iter, obsolete, newf, oldf, committed, inflight, maybe, lastfail, moves, crashes, fails, faults>>
+(* Create returns an error; `made`: the file exists nevertheless *)
+CreateFail(made) == /\ pc = "create" /\ children' = (IF made THEN children \cup {newf} ELSE children)
+                    /\ pc' = "reterr" /\ faults' = faults + 1
+                    /\ UNCHANGED <<synced, iter, cur, obsolete, newf, oldf, committed, inflight, maybe, lastfail, moves, crashes, fails>>
+(* empty file: no data to make durable; on error the file is closed and the error returned *)
+SyncFile(ok) == /\ pc = "syncfile" /\ pc' = (IF ok THEN "close" ELSE "closeerr")
+                /\ faults' = (IF ok THEN faults ELSE faults + 1)
+                /\ UNCHANGED <<children, synced, iter, cur, obsolete, newf, oldf, committed, inflight, maybe, lastfail, moves, crashes, fails>>
+CloseAfterErr == /\ pc = "closeerr" /\ pc' = "reterr"
+                 /\ UNCHANGED <<children, synced, iter, cur, obsolete, newf, oldf, committed, inflight, maybe, lastfail, moves, crashes, fails, faults>>
+CloseFile(ok) == /\ pc = "close"
+                 /\ pc' = (IF ~ok THEN "reterr" ELSE IF oldf # None THEN "remove" ELSE "syncdir")
+                 /\ cur' = (IF BugIterLate /\ ok THEN newf ELSE cur)
+                 /\ iter' = (IF BugIterLate /\ ok THEN newf[1] ELSE iter)
+                 /\ faults' = (IF ok THEN faults ELSE faults + 1)
+                 /\ UNCHANGED <<children, synced, obsolete, newf, oldf, committed, inflight, maybe, lastfail, moves, crashes, fails>>
 RemoveOld(ok) == /\ pc = "remove"
                  /\ (IF ok THEN children' = children \ {oldf} /\ obsolete' = obsolete /\ fails' = fails
                      ELSE children' = children /\ obsolete' = obsolete \cup {oldf} /\ fails' = fails + 1)
                  /\ pc' = "syncdir"
-                 /\ UNCHANGED <<synced, iter, cur, newf, oldf, committed, inflight, moves, crashes>>
-SyncDir == /\ pc = "syncdir"
-           /\ synced' = (IF BugNoDirSync \/ BugSyncBeforeCreate THEN synced ELSE children)
-           /\ pc' = "ret"
-           /\ UNCHANGED <<children, iter, cur, obsolete, newf, oldf, committed, inflight, moves, crashes, fails>>
-RetMove == /\ pc = "ret" /\ committed' = inflight /\ inflight' = 0 /\ pc' = "idle" /\ newf' = None /\ oldf' = None
-           /\ UNCHANGED <<children, synced, iter, cur, obsolete, moves, crashes, fails>>
+                 /\ UNCHANGED <<synced, iter, cur, newf, oldf, committed, inflight, maybe, lastfail, moves, crashes, faults>>
+(* an error of the directory Sync makes Move panic: nothing but a crash follows *)
+SyncDir(ok) == /\ pc = "syncdir"
+               /\ synced' = (IF BugNoDirSync \/ BugSyncBeforeCreate \/ ~ok THEN synced ELSE children)
+               /\ pc' = (IF ok THEN "ret" ELSE "dead")
+               /\ faults' = (IF ok THEN faults ELSE faults + 1)
+               /\ UNCHANGED <<children, iter, cur, obsolete, newf, oldf, committed, inflight, maybe, lastfail, moves, crashes, fails>>
+RetMove == /\ pc = "ret" /\ committed' = inflight /\ inflight' = 0 /\ maybe' = {} /\ lastfail' = 0
+           /\ pc' = "idle" /\ newf' = None /\ oldf' = None
+           /\ UNCHANGED <<children, synced, iter, cur, obsolete, moves, crashes, fails, faults>>
+RetMoveErr == /\ pc = "reterr" /\ maybe' = maybe \cup {inflight} /\ lastfail' = inflight /\ inflight' = 0
+              /\ pc' = "idle" /\ newf' = None /\ oldf' = None
+              /\ UNCHANGED <<children, synced, iter, cur, obsolete, committed, moves, crashes, fails, faults>>
 
 (* ---- RemoveObsolete: Remove each obsolete file; no sync ---- *)
 CallRO == /\ pc = "idle" /\ pc' = "ro"
-          /\ UNCHANGED <<children, synced, iter, cur, obsolete, newf, oldf, committed, inflight, moves, crashes, fails>>
+          /\ UNCHANGED <<children, synced, iter, cur, obsolete, newf, oldf, committed, inflight, maybe, lastfail, moves, crashes, fails, faults>>
 RORemove(f, ok) == /\ pc = "ro" /\ f \in obsolete
                    /\ (IF ok THEN children' = children \ {f} /\ obsolete' = obsolete \ {f} /\ pc' = "ro" /\ fails' = fails
                        ELSE children' = children /\ obsolete' = obsolete /\ pc' = "roret" /\ fails' = fails + 1)
-                   /\ UNCHANGED <<synced, iter, cur, newf, oldf, committed, inflight, moves, crashes>>
+                   /\ UNCHANGED <<synced, iter, cur, newf, oldf, committed, inflight, maybe, lastfail, moves, crashes, faults>>
 RetRO == /\ pc \in {"ro", "roret"} /\ (pc = "ro" => obsolete = {}) /\ pc' = "idle"
-         /\ UNCHANGED <<children, synced, iter, cur, obsolete, newf, oldf, committed, inflight, moves, crashes, fails>>
+         /\ UNCHANGED <<children, synced, iter, cur, obsolete, newf, oldf, committed, inflight, maybe, lastfail, moves, crashes, fails, faults>>
+
+(* ---- LocateMarker again on the live directory (no crash: nothing becomes durable, nothing is decided) ---- *)
+Relocate == /\ pc = "idle" /\ LocateOn(children)
+            /\ UNCHANGED <<children, synced, committed, inflight, maybe, lastfail, moves, crashes, fails, faults>>
 
 (* ---- crash at any point, then a new process locates the marker on what survived ---- *)
 Crash(st) == /\ st \in CrashStates
              /\ children' = st /\ synced' = st /\ LocateOn(st)
-             /\ committed' = LocVal(st) /\ inflight' = 0 /\ crashes' = crashes + 1
-             /\ UNCHANGED <<moves, fails>>
+             /\ committed' = LocVal(st) /\ inflight' = 0 /\ maybe' = {} /\ lastfail' = 0 /\ crashes' = crashes + 1
+             /\ UNCHANGED <<moves, fails, faults>>
 
-DoMove == moves < MaxMoves /\ CallMove(moves + 1)
+DoMove == moves < MaxMoves /\ (CallMove(moves + 1) \/ (lastfail # 0 /\ CallMove(lastfail)))
 DoRemoveOldFail == fails < MaxRemoveFails /\ RemoveOld(FALSE)
+DoFault == faults < MaxFaults /\ (CreateFail(TRUE) \/ CreateFail(FALSE) \/ SyncFile(FALSE) \/ CloseFile(FALSE) \/ SyncDir(FALSE))
 DoCallRO == obsolete # {} /\ CallRO
 DoRORemove == \E f \in obsolete : RORemove(f, TRUE) \/ (fails < MaxRemoveFails /\ RORemove(f, FALSE))
 DoCrash == crashes < MaxCrashes /\ \E st \in CrashStates : Crash(st)
-MNext == \/ DoMove \/ PreSync \/ Create \/ SyncFile \/ CloseFile
-         \/ RemoveOld(TRUE) \/ DoRemoveOldFail \/ SyncDir \/ RetMove
-         \/ DoCallRO \/ DoRORemove \/ RetRO \/ DoCrash
+MNext == \/ DoMove \/ PreSync \/ Create \/ SyncFile(TRUE) \/ CloseFile(TRUE) \/ CloseAfterErr
+         \/ RemoveOld(TRUE) \/ DoRemoveOldFail \/ SyncDir(TRUE) \/ DoFault \/ RetMove \/ RetMoveErr
+         \/ DoCallRO \/ DoRORemove \/ RetRO \/ Relocate \/ DoCrash
 Spec == MInit /\ [][MNext]_mvars
 
 (* ---- C24 ---- *)
-Allowed == {committed} \cup (IF inflight # 0 THEN {inflight} ELSE {})
-(* any crash at any step of Move: old or new; after Move returned: new, in every crash state *)
-Atomic == \A st \in CrashStates : LocVal(st) \in Allowed
+Live == {committed} \cup maybe
+Allowed == Live \cup (IF inflight # 0 THEN {inflight} ELSE {})
+(* any crash at any step of Move: old or new (or the value of a Move that returned an error since);  *)
+(* after Move returned nil: new, in every crash state, whatever the order of the directory listing   *)
+Atomic == \A st \in CrashStates : LocVals(st) \subseteq Allowed
 (* obsolete files never shadow the newest one (live directory, between calls and during RemoveObsolete) *)
-StaleNeverWins == pc \in {"idle", "ro", "roret"} => LocVal(children) = committed
+StaleNeverWins == pc \in {"idle", "ro", "roret"} => LocVals(children) \subseteq Live
 ObsoleteLower == \A f \in obsolete : cur # None /\ f[1] < cur[1]
+(* two marker files never carry the same iteration number (scanForMarker would depend on the listing order) *)
+UniqueIter == \A f \in children, g \in children : f[1] = g[1] => f = g
 TypeOK == /\ synced \subseteq (children \cup synced) /\ iter >= 0 /\ committed >= 0
 Done == moves = MaxMoves /\ pc = "idle" /\ obsolete = {}
 =============================================================================
